@@ -97,6 +97,9 @@ impl Game {
         for character in pieces.chars() {
             match character {
                 '/' => {
+                    if col != 8 {
+                        bail!("Invalid row length");
+                    }
                     if row == 0 {
                         bail!("Too many rows");
                     }
@@ -104,15 +107,19 @@ impl Game {
                     row -= 1;
                 }
                 piece if piece.is_ascii_alphabetic() => {
-                    if col == 8 {
+                    if col >= 8 {
                         bail!("Too many columns");
                     }
                     let piece = Piece::from_char_ascii(piece).with_context(|| "Invalid piece")?;
                     if piece.piece_type == PieceType::King {
-                        match piece.owner {
-                            Player::White => white_king_pos = Some(Position::new_assert(row, col)),
-                            Player::Black => black_king_pos = Some(Position::new_assert(row, col)),
+                        let king_pos = match piece.owner {
+                            Player::White => &mut white_king_pos,
+                            Player::Black => &mut black_king_pos,
+                        };
+                        if king_pos.is_some() {
+                            bail!("More than one king of the same color");
                         }
+                        *king_pos = Some(Position::new_assert(row, col));
                     }
                     let position = Position::new_assert(row, col);
                     board[position.as_usize()] = Some(piece);
@@ -123,8 +130,11 @@ impl Game {
 
                     col += 1;
                 }
-                empty_count if character.is_ascii_digit() => {
+                empty_count if ('1'..='8').contains(&character) => {
                     let count = (empty_count as u8 - b'0') as i8;
+                    if col + count > 8 {
+                        bail!("Too many columns");
+                    }
                     for i in 0..count {
                         let position = Position::new_assert(row, col + i);
                         past_hashes[position.as_usize()] = zobrist::EMPTY_PLACE;
@@ -145,9 +155,9 @@ impl Game {
             bail!("Missing player");
         };
 
-        let current_player = match next_player.chars().next().unwrap() {
-            'w' => Player::White,
-            'b' => Player::Black,
+        let current_player = match next_player {
+            "w" => Player::White,
+            "b" => Player::Black,
             _ => bail!("Invalid player"),
         };
 
@@ -161,14 +171,15 @@ impl Game {
             bail!("Missing castling rights");
         };
 
-        for right in castling_rights.chars() {
-            match right {
-                'K' => state.set_white_king_castling_true(),
-                'Q' => state.set_white_queen_castling_true(),
-                'k' => state.set_black_king_castling_true(),
-                'q' => state.set_black_queen_castling_true(),
-                '-' => continue,
-                _ => bail!("Invalid castling right"),
+        if castling_rights != "-" {
+            for right in castling_rights.chars() {
+                match right {
+                    'K' => state.set_white_king_castling_true(),
+                    'Q' => state.set_white_queen_castling_true(),
+                    'k' => state.set_black_king_castling_true(),
+                    'q' => state.set_black_queen_castling_true(),
+                    _ => bail!("Invalid castling right"),
+                }
             }
         }
 
@@ -177,11 +188,15 @@ impl Game {
         };
 
         if en_passant != "-" {
-            let col = en_passant.chars().nth(0).unwrap();
-            state.set_en_passant(((col as u8) - b'a') as i8);
-            if !(0..8).contains(&state.en_passant()) {
+            let mut square = en_passant.chars();
+            let (Some(col), Some(row), None) = (square.next(), square.next(), square.next())
+            else {
+                bail!("Invalid en passant square");
+            };
+            if !('a'..='h').contains(&col) || !(row == '3' || row == '6') {
                 bail!("Invalid en passant square");
             }
+            state.set_en_passant(((col as u8) - b'a') as i8);
         }
 
         let Some(white_king_pos) = white_king_pos else {
